@@ -436,15 +436,15 @@ class Inliner(object):
                 if isinstance(s, ast.Try):
                     for h_ in s.handlers:
                         h_.body = rewrite_list(h_.body)
-                site = self.call_site(s)
-                if site is not None:
-                    call, setter = site
+                done = False
+                for call, setter in self.call_sites(s):
+                    if done:
+                        break
                     helper, recv = self.resolve(call, cls_name, first)
                     if helper is not None and helper is not fnode and self.inlinable(helper):
                         try:
                             pre, res = self.expand(helper, recv, call)
                         except NotInlinable:
-                            out.append(s)
                             continue
                         new_stmt = setter(res)
                         if new_stmt is None and not isinstance(res, (ast.Name, ast.Constant)):
@@ -458,8 +458,9 @@ class Inliner(object):
                         out.extend(new_list)
                         changed = True
                         self.n_inlined += 1
-                        continue
-                out.append(s)
+                        done = True
+                if not done:
+                    out.append(s)
             return out
 
         fnode.body = rewrite_list(fnode.body)
@@ -513,6 +514,35 @@ class Inliner(object):
                         return s
                     return v.left, setter
         return None
+
+    def call_sites(self, s):
+        """Candidate (call, setter) pairs of statement s, in order of preference: the
+        statement's own call, then the one call among the arguments of that call when
+        everything else that the outer call evaluates is a plain name or constant
+        (errors.extend(self._helper(x)): evaluating the helper first changes nothing)."""
+        site = self.call_site(s)
+        if site is None:
+            return
+        yield site
+        outer = site[0]
+        if not (isinstance(outer, ast.Call) and _simple(outer.func)):
+            return
+        operands = list(outer.args) + [k.value for k in outer.keywords]
+        calls = [a for a in operands if isinstance(a, ast.Call)]
+        rest = [a for a in operands if not isinstance(a, ast.Call)]
+        if len(calls) != 1 or not all(isinstance(a, (ast.Name, ast.Constant)) for a in rest):
+            return
+        inner = calls[0]
+
+        def setter(e, s=s, outer=outer, inner=inner):
+            for i, a in enumerate(outer.args):
+                if a is inner:
+                    outer.args[i] = e
+            for k in outer.keywords:
+                if k.value is inner:
+                    k.value = e
+            return s
+        yield inner, setter
 
     def run(self):
         for _ in range(MAX_PASSES):
@@ -601,6 +631,19 @@ def _split_tuple_assign(stmt):
     return [stmt]
 
 
+def split_tuple_assigns(tree):
+    """a, b = x, y  ->  a = x; b = y  everywhere (same condition as _split_tuple_assign)."""
+    for node in ast.walk(tree):
+        for fld in ("body", "orelse", "finalbody"):
+            lst = getattr(node, fld, None)
+            if isinstance(lst, list) and lst and isinstance(lst[0], ast.stmt):
+                new = []
+                for st in lst:
+                    new.extend(_split_tuple_assign(st))
+                if len(new) != len(lst):
+                    setattr(node, fld, new)
+
+
 def _has_res(stmts, res):
     for s in stmts:
         for n in ast.walk(s):
@@ -612,7 +655,149 @@ def _has_res(stmts, res):
 def inline_tree(tree, no_inline=frozenset()):
     """Deep copy of the module tree with private helpers inlined; (tree, number inlined)."""
     t = copy.deepcopy(tree)
+    split_tuple_assigns(t)
+    n_unrolled = unroll_constant_loops(t)
     inl = Inliner(t)
     inl.no_inline = no_inline
+    inl.n_inlined += n_unrolled
     inl.run()
     return t, inl.n_inlined
+
+
+# ---------------------------------------------------------------------- constant loops
+MAX_UNROLL = 16
+
+
+class _ConstLoops(ast.NodeTransformer):
+    """Unrolls `for x in NAMES` / `{x: .. for x in NAMES}` / `[.. for x in NAMES]` where NAMES
+    is a module- or class-level tuple / list of string constants, and turns
+    getattr / setattr / hasattr with a constant name into plain attribute syntax.  Table-driven
+    code (`for attr in self._persisted_attrs: data[attr] = copy(getattr(self, attr))`) then
+    reads like the hand-written sequence of statements it stands for."""
+
+    def __init__(self, tree):
+        self.module_consts = {}
+        self.class_consts = {}
+        self.n = 0
+        for s in tree.body:
+            self._collect(s, self.module_consts)
+            if isinstance(s, ast.ClassDef):
+                d = self.class_consts.setdefault(s.name, {})
+                for m in s.body:
+                    self._collect(m, d)
+        self.cls = None
+
+    @staticmethod
+    def _collect(s, into):
+        if isinstance(s, ast.Assign) and len(s.targets) == 1 and isinstance(
+                s.targets[0], ast.Name) and isinstance(s.value, (ast.Tuple, ast.List)) and \
+                s.value.elts and len(s.value.elts) <= MAX_UNROLL and all(
+                    isinstance(e, ast.Constant) and isinstance(e.value, str) for e in s.value.elts):
+            into[s.targets[0].id] = [e.value for e in s.value.elts]
+
+    def _values(self, it):
+        if isinstance(it, ast.Name):
+            return self.module_consts.get(it.id)
+        if isinstance(it, ast.Attribute) and isinstance(it.value, ast.Name) and it.value.id in (
+                "self", "cls") and self.cls:
+            return self.class_consts.get(self.cls, {}).get(it.attr)
+        if isinstance(it, ast.Attribute) and isinstance(it.value, ast.Name) and \
+                it.value.id in self.class_consts:
+            return self.class_consts[it.value.id].get(it.attr)
+        return None
+
+    def visit_ClassDef(self, node):
+        prev, self.cls = self.cls, node.name
+        self.generic_visit(node)
+        self.cls = prev
+        return node
+
+    @staticmethod
+    def _subst(node, var, value):
+        class S(ast.NodeTransformer):
+            def visit_Name(self, n):
+                if n.id == var and isinstance(n.ctx, ast.Load):
+                    return ast.copy_location(ast.Constant(value=value), n)
+                return n
+        return S().visit(copy.deepcopy(node))
+
+    def visit_For(self, node):
+        self.generic_visit(node)
+        vals = self._values(node.iter)
+        if vals is None or not isinstance(node.target, ast.Name) or node.orelse:
+            return node
+        if any(isinstance(x, (ast.Break, ast.Continue)) for b in node.body for x in ast.walk(b)):
+            return node
+        var = node.target.id
+        if any(isinstance(x, ast.Name) and x.id == var and isinstance(x.ctx, ast.Store)
+               for b in node.body for x in ast.walk(b)):
+            return node
+        out = []
+        for v in vals:
+            for b in node.body:
+                out.append(self._attrs(self._subst(b, var, v)))
+        self.n += 1
+        return out
+
+    def _comp(self, node):
+        if len(node.generators) != 1:
+            return None
+        g = node.generators[0]
+        vals = self._values(g.iter)
+        if vals is None or not isinstance(g.target, ast.Name) or g.ifs or g.is_async:
+            return None
+        return g.target.id, vals
+
+    def visit_DictComp(self, node):
+        self.generic_visit(node)
+        r = self._comp(node)
+        if r is None:
+            return node
+        var, vals = r
+        self.n += 1
+        return ast.copy_location(ast.Dict(
+            keys=[self._attrs(self._subst(node.key, var, v)) for v in vals],
+            values=[self._attrs(self._subst(node.value, var, v)) for v in vals]), node)
+
+    def visit_ListComp(self, node):
+        self.generic_visit(node)
+        r = self._comp(node)
+        if r is None:
+            return node
+        var, vals = r
+        self.n += 1
+        return ast.copy_location(ast.List(
+            elts=[self._attrs(self._subst(node.elt, var, v)) for v in vals], ctx=ast.Load()), node)
+
+    def _attrs(self, node):
+        """getattr(o, 'a') -> o.a ; hasattr kept ; setattr(o, 'a', v) statement -> o.a = v"""
+        class A(ast.NodeTransformer):
+            def visit_Call(self, c):
+                self.generic_visit(c)
+                if isinstance(c.func, ast.Name) and c.func.id == "getattr" and len(c.args) == 2 \
+                        and not c.keywords and isinstance(c.args[1], ast.Constant) and isinstance(
+                        c.args[1].value, str) and c.args[1].value.isidentifier():
+                    return ast.copy_location(ast.Attribute(
+                        value=c.args[0], attr=c.args[1].value, ctx=ast.Load()), c)
+                return c
+
+            def visit_Expr(self, e):
+                self.generic_visit(e)
+                c = e.value
+                if isinstance(c, ast.Call) and isinstance(c.func, ast.Name) and \
+                        c.func.id == "setattr" and len(c.args) == 3 and not c.keywords and \
+                        isinstance(c.args[1], ast.Constant) and isinstance(c.args[1].value, str) \
+                        and c.args[1].value.isidentifier():
+                    return ast.copy_location(ast.Assign(targets=[ast.Attribute(
+                        value=c.args[0], attr=c.args[1].value, ctx=ast.Store())],
+                        value=c.args[2]), e)
+                return e
+        return A().visit(node)
+
+
+def unroll_constant_loops(tree):
+    t = _ConstLoops(tree)
+    t.visit(tree)
+    if t.n:
+        ast.fix_missing_locations(tree)
+    return t.n
